@@ -403,6 +403,53 @@ func rpCheckTree(t *testing.T, c *Collection, model map[string]rpModelItem, heap
 	if int(cnt) != len(model) {
 		t.Fatalf("%s: tree has %d items, model %d", what, cnt, len(model))
 	}
+	// canonical shape: with distinct priorities (and no key overwritten with a lower one) the depth of every
+	// item is determined by keys and priorities alone -- computed here independently of the tree
+	if heapOK {
+		type kp struct {
+			k string
+			p int32
+		}
+		var items []kp
+		distinct := map[int32]bool{}
+		dup := false
+		for k, m := range model {
+			items = append(items, kp{k, m.pri})
+			dup = dup || distinct[m.pri]
+			distinct[m.pri] = true
+		}
+		if !dup {
+			var expect func(set []kp, d int)
+			expect = func(set []kp, d int) {
+				if len(set) == 0 {
+					return
+				}
+				top := 0
+				for i := range set {
+					if set[i].p > set[top].p {
+						top = i
+					}
+				}
+				if depths[set[top].k] != d {
+					t.Fatalf("%s: item %q is at depth %d; keys and priorities alone put it at depth %d (canonical shape)", what, set[top].k, depths[set[top].k], d)
+				}
+				var lo, hi []kp
+				for i := range set {
+					if i == top {
+						continue
+					}
+					if rpLess(set[i].k, set[top].k) {
+						lo = append(lo, set[i])
+					} else {
+						hi = append(hi, set[i])
+					}
+				}
+				expect(lo, d+1)
+				expect(hi, d+1)
+			}
+			expect(items, 0)
+		}
+	}
 	ni, nb, err := c.GetTotals()
 	if err != nil || ni != cnt || nb != bt {
 		t.Fatalf("%s: GetTotals = %d, %d, %v; really %d, %d", what, ni, nb, err, cnt, bt)
@@ -1144,3 +1191,124 @@ func rpCrash(t *testing.T) {
 }
 
 func TestReplay_Store_write(t *testing.T) { rpCrash(t) }
+
+
+// ---- independent decoder of the v4 file layout (C14, C02) ---------------------------------------
+
+type rpDecoded struct {
+	items map[string]map[string]string // collection -> key -> "value|priority"
+}
+
+func rpDecodeFile(t *testing.T, f []byte) rpDecoded {
+	end := rpGreatestRoot(f)
+	out := rpDecoded{items: map[string]map[string]string{}}
+	if end == 0 {
+		return out
+	}
+	length := int(rpBE(f[end-16 : end-12]))
+	o := end - length
+	var roots map[string]struct {
+		O int64  `json:"o"`
+		L uint32 `json:"l"`
+	}
+	if err := json.Unmarshal(f[o+20:end-24], &roots); err != nil {
+		t.Fatalf("root record JSON: %v", err)
+	}
+	var node func(off int64, l uint32, into map[string]string) (uint64, uint64)
+	node = func(off int64, l uint32, into map[string]string) (uint64, uint64) {
+		if off == 0 && l == 0 {
+			return 0, 0
+		}
+		if l != 52 || int(off)+52 > len(f) {
+			t.Fatalf("node record at %d has length %d (a v4 node record is 52 bytes)", off, l)
+		}
+		b := f[off : off+52]
+		ploc := func(p []byte) (int64, uint32) { return int64(rpBE(p[0:8])), uint32(rpBE(p[8:12])) }
+		io, il := ploc(b[0:12])
+		lo, ll := ploc(b[12:24])
+		ro, rl := ploc(b[24:36])
+		numNodes, numBytes := rpBE(b[36:44]), rpBE(b[44:52])
+		if lo >= off && !(lo == 0 && ll == 0) || ro >= off && !(ro == 0 && rl == 0) || io >= off {
+			t.Fatalf("node record at %d points forward (children and item are written before the parent)", off)
+		}
+		if int(io)+16 > len(f) {
+			t.Fatalf("item record at %d out of file", io)
+		}
+		h := f[io : io+16]
+		total, kl, vl, pri := uint32(rpBE(h[0:4])), uint32(rpBE(h[4:8])), uint32(rpBE(h[8:12])), int32(uint32(rpBE(h[12:16])))
+		if total != il || total != 16+kl+vl {
+			t.Fatalf("item record at %d: total length %d, location says %d, header 16 + key %d + value %d", io, total, il, kl, vl)
+		}
+		key := string(f[io+16 : io+16+int64(kl)])
+		val := string(f[io+16+int64(kl) : io+16+int64(kl)+int64(vl)])
+		if _, dup := into[key]; dup {
+			t.Fatalf("key %q occurs twice in the decoded tree", key)
+		}
+		into[key] = fmt.Sprintf("%s|%d", val, pri)
+		ln, lb := node(lo, ll, into)
+		rn, rb := node(ro, rl, into)
+		if numNodes != ln+rn+1 || numBytes != lb+rb+uint64(kl+vl) {
+			t.Fatalf("node record at %d records %d items / %d bytes; its decoded subtree has %d / %d", off, numNodes, numBytes, ln+rn+1, lb+rb+uint64(kl+vl))
+		}
+		return numNodes, numBytes
+	}
+	for name, loc := range roots {
+		out.items[name] = map[string]string{}
+		node(loc.O, loc.L, out.items[name])
+	}
+	return out
+}
+
+// what an independent decoder reconstructs from the file after every Flush is the store's state
+func rpDecode(t *testing.T) {
+	for seed := int64(1); seed <= 8; seed++ {
+		r := rand.New(rand.NewSource(seed * 31))
+		f := &rpFile{}
+		s, _ := NewStore(f)
+		model := map[string]map[string]string{}
+		for step := 0; step < 50; step++ {
+			cn := fmt.Sprintf("c%d", r.Intn(3))
+			switch op := r.Intn(12); {
+			case op < 6:
+				if s.GetCollection(cn) == nil {
+					s.SetCollection(cn, nil)
+					model[cn] = map[string]string{}
+				}
+				k, v, p := fmt.Sprintf("k%02d", r.Intn(8)), string(bytes.Repeat([]byte{byte('a' + step%26)}, r.Intn(9))), int32(r.Intn(50))
+				if err := s.GetCollection(cn).SetItem(&Item{Key: []byte(k), Val: []byte(v), Priority: p}); err != nil {
+					t.Fatal(err)
+				}
+				model[cn][k] = fmt.Sprintf("%s|%d", v, p)
+			case op < 8:
+				if c := s.GetCollection(cn); c != nil {
+					k := fmt.Sprintf("k%02d", r.Intn(8))
+					c.Delete([]byte(k))
+					delete(model[cn], k)
+				}
+			case op == 8:
+				if s.GetCollection(cn) != nil {
+					s.RemoveCollection(cn)
+					delete(model, cn)
+				}
+			case op == 9:
+				for _, n := range s.GetCollectionNames() {
+					s.GetCollection(n).EvictSomeItems()
+				}
+			default:
+				rpCases++
+				if err := s.Flush(); err != nil {
+					t.Fatal(err)
+				}
+				got := rpDecodeFile(t, f.b)
+				if fmt.Sprint(got.items) != fmt.Sprint(model) {
+					t.Fatalf("seed %d step %d: an independent decoder reads %v from the flushed file, the store holds %v", seed, step, got.items, model)
+				}
+			}
+		}
+	}
+}
+
+func TestReplay_node_populateDiskStruct(t *testing.T) { rpDecode(t) }
+func TestReplay_populateNode(t *testing.T)            { rpDecode(t) }
+func TestReplay_Collection_writeNodes(t *testing.T)   { rpDecode(t) }
+func TestReplay_Collection_writeItems(t *testing.T)   { rpDecode(t) }
